@@ -440,7 +440,7 @@ def producers(p):
     return kept_nodes(p)
 
 
-def _own_items(p, fid, memo, stack=()):
+def _own_items(p, fid, memo, stack=(), externals=None):
     """own(K) contents for function fid: texts, variable values, cones of loaded producers."""
     if fid in memo:
         return memo[fid]
@@ -468,9 +468,10 @@ def _own_items(p, fid, memo, stack=()):
             if s["k"] == "load":
                 prod = kept_nodes(p).get(s["path"])
                 if prod is not None and s["path"] not in stack:
-                    items.append(("L", s["path"], node_fp(p, prod, stack + (s["path"],))))
+                    items.append(("L", s["path"], node_fp(p, prod, stack + (s["path"],), "()", externals)))
                 else:
-                    items.append(("L", s["path"], "external"))
+                    # produced outside this evaluation: what the path currently serves
+                    items.append(("L", s["path"], (externals or {}).get(s["path"], "never-kept")))
     memo[fid] = sorted(set(json.dumps(x) for x in items))
     return memo[fid]
 
@@ -489,9 +490,9 @@ def _is_runtime_arg(a):
     return a["k"] != "lit"
 
 
-def _ctx_items(p, efid, memo, entry_args_src, stack=()):
+def _ctx_items(p, efid, memo, entry_args_src, stack=(), externals=None):
     """ctx(E): the whole enclosing function, what it references, its bound values, its caller's ctx if it has run-time args."""
-    items = list(_own_items(p, efid, memo, stack))
+    items = list(_own_items(p, efid, memo, stack, externals))
     f = p["fns"][efid]
     items.append(json.dumps(("Eargs", f["name"], entry_args_src if efid == p["entry"] else "")))
     # E's caller: every site that calls/keeps E with run-time arguments
@@ -500,24 +501,25 @@ def _ctx_items(p, efid, memo, entry_args_src, stack=()):
             if s["k"] in ("call", "keep") and s["fn"] == efid and g != efid:
                 if any(_is_runtime_arg(a) for a in s["args"]) or s["k"] == "call" and f["params"]:
                     if g not in stack:
-                        items += _ctx_items(p, g, memo, entry_args_src, stack + (g,))
+                        items += _ctx_items(p, g, memo, entry_args_src, stack + (g,), externals)
                 else:
                     items.append(json.dumps(("Ebound", f["name"], [a.get("src") for a in s["args"]])))
     return items
 
 
-def node_fp(p, node, stack=(), entry_args_src="()"):
-    """Fingerprint of cone(K) (DESIGN.md 4.1) computed from the generator's ground truth only."""
+def node_fp(p, node, stack=(), entry_args_src="()", externals=None):
+    """Fingerprint of cone(K) (DESIGN.md 4.1) computed from the generator's ground truth only.
+    `externals`: path -> token of what a path produced outside this evaluation currently serves."""
     memo = {}
     if node["kind"] == "lambda":
         fid, i = node["site"]
-        return h(["lambda", node["const"], _ctx_items(p, fid, memo, entry_args_src)])
-    own = _own_items(p, node["fn"], memo, stack)
+        return h(["lambda", node["const"], _ctx_items(p, fid, memo, entry_args_src, (), externals)])
+    own = _own_items(p, node["fn"], memo, stack, externals)
     binding = [(a["k"], a.get("src"), a.get("kw")) for a in node["args"]]
     f = p["fns"][node["fn"]]
     items = ["own", own, binding, [d for _, d in f["params"]]]
     if node["site"] is not None and any(_is_runtime_arg(a) for a in node["args"]):
-        items.append(("ctx", sorted(set(_ctx_items(p, node["site"][0], memo, entry_args_src)))))
+        items.append(("ctx", sorted(set(_ctx_items(p, node["site"][0], memo, entry_args_src, (), externals)))))
     if node["site"] is None and node["fn"] == p["entry"]:
         items.append(("entry_args", entry_args_src))
     return h(items)
